@@ -589,3 +589,57 @@ def c18(tier):
 
 
 PROPS.update({"C12": c12, "C13": c13, "C17": c17, "C18": c18})
+
+
+def _corrupt_c16(events):
+    ev = json.loads(json.dumps(events))
+    for e in ev:
+        if e.get("ev") == "rx_stream" and e.get("dir") == "uni" and e.get("bytes", [9])[:1] == [0] and len(e["bytes"]) > 6:
+            e["bytes"][3] = (e["bytes"][3] + 1) % 64      # first setting id of the control stream
+            return ev
+    return None
+
+
+def c16(tier):
+    import scen
+    return e2e_check(
+        "C16", tier, scen.c16(tier, vlib.seed()), "C16Trace.tla", _corrupt_c16,
+        ["a raw QUIC peer records verbatim every stream, datagram and close/stop code the endpoint emits: client role "
+         "(request for URL/header classes), server role (five decisions with extra fields), WebTransport streams and datagrams, "
+         "and error paths of the C12 catalogue; judged with Wire/Qpack/Huffman reference decoders only"],
+        mc_cfgs=[("WireMC.tla", "WireMC_quick.cfg")], par=8, threads=4)
+
+
+PROPS["C16"] = c16
+
+
+def _corrupt_c05(events):
+    ev = json.loads(json.dumps(events))
+    for e in ev:
+        if e.get("ev") == "op_done" and e.get("tag") in ("probe1", "probe2") and e.get("res") == "ok":
+            e["res"] = "timeout"
+            return ev
+    return None
+
+
+def _case_c05(scn, hist):
+    t = scn.get("meta", {}).get("target")
+    if t in ("settings", "grease_ctrl", "grease_session", "capsule"):
+        return {"c05_class": "frame read inside the worker select loop"}
+    return {"c05_class": "frame read by a dedicated task"}
+
+
+def c05(tier):
+    import scen
+    return e2e_check(
+        "C05", tier, scen.c05(tier, vlib.seed()), "C05Trace.tla", _corrupt_c05,
+        ["valid exchanges whose SETTINGS / GREASE / request or response HEADERS / session-stream GREASE / close capsule are cut "
+         "at every position (quick: one seeded position per target x injected-event pair), with nothing, a datagram, a WebTransport "
+         "uni or bidi stream, a QPACK stream byte or a frame on another critical stream injected between the pieces (25 ms gaps), "
+         "both roles, multi-thread runtime (plus current-thread in thorough); each paired with its unsegmented twin",
+         "timing: whether a tear manifests depends on the scheduler; a scenario that passes is not proof of absence"],
+        mc_cfgs=[("WireMC.tla", "WireMC_quick.cfg")], par=4, threads=4, case_of=_case_c05,
+        runs=2 if tier == "thorough" else 1)
+
+
+PROPS["C05"] = c05
